@@ -1927,8 +1927,13 @@ int main(int argc, char** argv)
     // grid alphabet: decades x non-round bounds x a narrow grid; N = knots
     std::vector<GridRange> ranges = {{1e-4, 1e2}, {1.0, 1e8}, {1e-3, 1e3}, {0.1, 20.0},
                                      {2.5e-4, 3.7e3}, {1e-5, 1e-1}, {1e-6, 1e6}, {0.7, 1.3},
-                                     {1e-4, 1e4}};
-    std::vector<int> Ns = {2, 3, 4, 5, 8, 9, 17};
+                                     {1e-4, 1e4},
+                                     // grids whose computed last point front + delta*(N-1) lies
+                                     // one ulp BELOW the stored back for N = 6 / 11 (the gap in
+                                     // which only the upper-neighbour guard of UniformGrid::find
+                                     // keeps the bin inside the table)
+                                     {1e-4, 10.0}, {1e-2, 1e3}};
+    std::vector<int> Ns = {2, 3, 4, 5, 6, 8, 9, 11, 17};
     int ulps = 24;  // every knot candidate +-ulps
     int nmid = 4;  // interior points per bin (in addition to the fixed ones)
     if (thorough)
